@@ -591,7 +591,7 @@ fn c06_scenarios(tier: Tier) -> Vec<Scenario> {
     {
         let small = vec![OpSpec::put(&["b"], "k0", "v*8")];
         let mut alpha: Vec<Action> = vec![Action::TearOtherSlot, Action::Reopen, Action::OpenWrongPagesize(16384), Action::OpenWrongPagesize(1032), Action::Tx { ops: small.clone(), commit: true }, Action::Tx { ops: bodies[1].clone(), commit: false }];
-        for call in 0..14 {
+        for call in 0..16 {
             alpha.push(Action::TxFail { ops: small.clone(), call: 2000 + call });
         }
         for call in [1000, 1001, 1002] {
@@ -600,7 +600,7 @@ fn c06_scenarios(tier: Tier) -> Vec<Scenario> {
         // headers in the slots of the pinned release (a no-op unless the alternation rule changed), and
         // writes that are cut short before they fail
         alpha.push(Action::PinnedLayout);
-        for call in 2..12 {
+        for call in 2..14 {
             alpha.push(Action::TxFail { ops: small.clone(), call: 3000 + call });
         }
         let or2 = Oracles { rets: true, dump_after: true, fileck: true, dbcheck: true, ..Oracles::NONE };
